@@ -4,6 +4,7 @@ use crate::ctx::Run;
 
 pub mod c01;
 pub mod c02;
+pub mod c03;
 pub mod c04;
 pub mod c05;
 pub mod c08;
@@ -19,6 +20,7 @@ pub fn dispatch(run: &mut Run, extra: &[String]) -> bool {
     match run.prop.as_str() {
         "C01" => c01::run(run),
         "C02" => c02::run(run),
+        "C03" => c03::run(run),
         "C04" => c04::run(run),
         "C05" => c05::run(run),
         "C08" => c08::run(run),
